@@ -83,7 +83,7 @@ impl Scenario for EcdsaNet {
         ScenarioInfo {
             property: "C05",
             name: "ecdsa-net",
-            rule: "one case = one seeded signing-world history of 3-14 events: sign through every entry point (deterministic nonce in both byte-order modes, randomised nonce in both modes with the 32-byte OS-entropy draw scripted as uniform / zeros / ones / >= n / n-1 / repeat, caller nonce, pre-hashed digest, PrivateKey::sign_message; SHA-256 or double SHA-256; compressed or uncompressed key; keys biased to 1, 2, 3, n-1, n-2 and near n; messages 0-4096 bytes), deliver to the real verifier (four verification entry points) and to a textbook verifier, correctly paired or mispaired (other message, other hash choice, other key) or replayed, re-sign the same request under a different entropy script and different preceding events, and ECDH on both sides; non-trivial = an entropy draw, mispairing or replay fired; distinct = fingerprint of the (entry point, hash, mode, key class, entropy kind, delivery pairing, verifier) sequence",
+            rule: "one case = one seeded signing-world history of 3-14 events: sign through every entry point (deterministic nonce in both byte-order modes, randomised nonce in both modes with the 32-byte OS-entropy draw scripted as uniform / zeros / ones / >= n / n-1 / repeat, caller nonce, pre-hashed digest, PrivateKey::sign_message; SHA-256 or double SHA-256; compressed or uncompressed key; keys biased to 1, 2, 3, n-1, n-2 and near n; messages from 0 bytes over the block boundaries to > 64 KiB, caller-chosen raw digests incl. 0 / n-1 / n / ff..ff), deliver to the real verifier (five verification entry points; the signature travels as an object or as DER / compact bytes that are parsed again) and to a textbook verifier, correctly paired (also with the key in the other SEC1 encoding) or mispaired (other message, other hash choice, other key, negated key, a well-formed off-curve key presented twice) or replayed, re-sign the same request under a different entropy script and different preceding events, and ECDH on both sides; non-trivial = an entropy draw, mispairing or replay fired; distinct = fingerprint of the (entry point, hash, mode, key class, entropy kind, delivery pairing, verifier) sequence",
             abstract_state: "(signing entry point, hash choice, nonce mode, key class, entropy kind, pairing, verifier entry point)",
             real: &["bsv::ECDSA::{sign_with_deterministic_k, sign_with_random_k (OsRng behind the cfg(bsv_verif) hook), sign_with_k, sign_digest_with_deterministic_k, verify_digest, verify_hashbuf}", "bsv::PrivateKey::sign_message", "bsv::Signature::{verify_message, r, s}", "bsv::PublicKey::{verify_message, is_valid_message}", "bsv::ECDH::derive_shared_key"],
             stub: &["RefVerifier: textbook ECDSA verification over k256 group arithmetic", "RefSigner: RFC 6979 HMAC-SHA256 (and the section 3.6 additional-data variant over SHA-256 or double SHA-256) nonce generation + textbook signing + low-S, written against sha2 only", "entropy source = script installed through the hook", "S7 (bit-for-bit RFC 6979 equality) and the reference half of ECDH are reference-model oracles without a simulator dimension of their own; they ride in this world because it already exists"],
